@@ -364,14 +364,22 @@ func NewFSNFromDag(nd *dag.ProtoNode) (*FSNodeOverDag, error) {
 // node but the size of the file data that it is storing at the
 // UnixFS layer). The child is also stored in the `DAGService`.
 func (n *FSNodeOverDag) AddChild(child ipld.Node, fileSize uint64, db *DagBuilderHelper) error {
-	err := n.dag.AddNodeLink("", child)
+	// Store the child first: a DAGService may still change how the child is
+	// hashed (the DagModifier falls back from an overflowing identity hash),
+	// and the link must carry the CID the child was stored under.
+	err := db.Add(child)
+	if err != nil {
+		return err
+	}
+
+	err = n.dag.AddNodeLink("", child)
 	if err != nil {
 		return err
 	}
 
 	n.file.AddBlockSize(fileSize)
 
-	return db.Add(child)
+	return nil
 }
 
 // RemoveChild deletes the child node at the given index.
